@@ -1,4 +1,4 @@
 #!/bin/sh
 # usage: tools_goal.sh file.v N  -- feed the first N lines to coqtop and show the goals
 f=$1; n=$2
-(head -n "$n" "$f"; echo "Show."; ) | timeout 120 coqtop -Q /verif/coq TW 2>&1 | tail -${3:-40}
+(head -n "$n" "$f"; echo "Show."; ) | timeout 120 coqtop -Q ${COQROOT:-/verif/coq} TW 2>&1 | tail -${3:-40}
